@@ -1102,8 +1102,21 @@ def run(ctx):
                 continue
             itrajs = [([[s, a, ns, vlib.frac(r)] for s, a, ns, r, _ in ro["steps"]], ro["final"]) for ro in res["rollouts"]]
             mt = [([list(x) for x in t[0]], t[1]) for t in mtrajs]
-            if clause or mt != itrajs or mdraws != res["rng"]["draws"]:
+            if clause:
                 mismatch(case, res, "evaluation roll-outs", (mtrajs, mdraws), clause)
+                continue
+            if mt != itrajs or mdraws != res["rng"]["draws"]:
+                # evaluate_on drew its roll-outs in another way than the stream mirror assumes (e.g. one privately seeded
+                # generator per simulation).  The property fixes what is reported about ITS OWN roll-outs, not which random
+                # stream they consume: the recorded roll-outs passed every clause above (valid trajectories from sampled starts,
+                # tables = their averages); the mirror difference is drift, not a violation.
+                feats["eval_stream_mirror_drift"] = feats.get("eval_stream_mirror_drift", 0) + 1
+                if any(r_[0] == "getrandbits" for r_ in res["rng"]["requests"]):
+                    feats["eval_child_generators"] = feats.get("eval_child_generators", 0) + 1
+                feats[case["policy"]["kind"]] += 1
+                if any(ro["steps"] for ro in res["rollouts"]):
+                    feats["nontrivial"] += 1
+                    distinct.add(vlib.structural_hash([case["mdp"], case["policy"], case["cap"], case["n_sims"], itrajs]))
                 continue
             isv = {s: x for s, x in res["state_value"]}
             iocc = {s: x for s, x in res["occupancy"]}
@@ -1140,15 +1153,20 @@ def run(ctx):
                 continue
             clause = None
             cap = cap_int_of(case)
+            exs = []
             for ro, vn, r0 in zip(res["rollouts"], mvn, mret0):
                 s0 = ro["acc_state"][0]
                 ex = exact_vn(case, min(cap, 10 * FUEL), s0)
+                exs.append(ex)
                 g = F(float(F(case["mdp"]["gamma"])))
                 ret0 = returns_rec([vlib.frac(st[3]) for st in ro["steps"]] + [F(0)], g)[0]
                 if not close(ret0, ex):
                     clause = "deterministic roll-out return differs from the cap-truncated exact evaluation"
                 if vn != ex or not close(r0, vn):
                     mismatch(case, res, "model Vn vs oracle", v)
+            # judged on the recorded roll-outs' own start states (independent of how the roll-outs were drawn)
+            if clause is None and exs and not close(vlib.frac(res["initial_value"]), sum(exs) / len(exs)):
+                clause = "deterministic evaluation: initial value differs from the cap-truncated exact evaluation"
             if clause is None and not close(vlib.frac(res["initial_value"]), mmean):
                 clause = "deterministic evaluation: initial value differs from the cap-truncated exact evaluation"
             if clause:
